@@ -419,7 +419,17 @@ pub fn run(tier: &str) -> i32 {
         // nested interruptions: a second one at every request of the recovery run (both tiers; the quick tier uses the
         // 2-chunk shard); thorough adds two injected errors and the 3-chunk shard
         .chain(vec![("fault+crash", Cost { fault: 1, crash: 1, ..Cost::ZERO }), ("two-crashes", Cost { crash: 2, ..Cost::ZERO })])
-        .chain(if t { vec![("two-faults", Cost { fault: 2, ..Cost::ZERO })] } else { vec![] })
+        .chain(if t {
+            vec![
+                ("two-faults", Cost { fault: 2, ..Cost::ZERO }),
+                // a third interruption at every request of the second recovery run
+                ("three-crashes", Cost { crash: 3, ..Cost::ZERO }),
+                ("fault+two-crashes", Cost { fault: 1, crash: 2, ..Cost::ZERO }),
+                ("two-faults+crash", Cost { fault: 2, crash: 1, ..Cost::ZERO }),
+            ]
+        } else {
+            vec![]
+        })
         {
             let cfg = ExploreConfig { bounds, use_cache: false, wall_cap: Duration::from_secs(if t { 900 } else { 50 }), max_steps: 1500, ..Default::default() };
             let st = explore(factory(p.clone()), &cfg);
@@ -436,7 +446,7 @@ pub fn run(tier: &str) -> i32 {
             rep.absorb_explore(&format!("{}:{label}", p.name), &serde_json::to_value(&p).unwrap(), &st, bounds);
         }
     }
-    rep.set("rule", "one execution per (request index of the split procedure, interruption mode in {fail-before, fail-after, crash}) (plus a second interruption - crash after error, crash after crash; thorough: error after error - at every request of the recovery run), each followed by the recovery procedure and compared with the state an uninterrupted split reaches; non-trivial = distinct (interrupted step, mode) pairs");
+    rep.set("rule", "one execution per (request index of the split procedure, interruption mode in {fail-before, fail-after, crash}) (plus a second interruption - crash after error, crash after crash; thorough: error after error - at every request of the recovery run; thorough: a third interruption - three crashes, error + two crashes, two errors + crash - at every request of the second recovery run), each followed by the recovery procedure and compared with the state an uninterrupted split reaches; non-trivial = distinct (interrupted step, mode) pairs");
     let ex = rep.get_u64("executions");
     rep.set("distinct_nontrivial", ex.saturating_sub(4));
     rep.set("requests_in_uninterrupted_split", baseline_requests);
